@@ -18,7 +18,9 @@ MANIFEST = {
             'below 200, all elements): is_sqr(a) <-> a is a square, sqrt(a)^2 = a for squares, INV is the inverse of the root '
             '(this covers the Cipolla branch and the jacobi loop). The model is compared with the real methods on all elements '
             'of 27 primes <= 257 and on boundary/random elements of 61/64-bit primes of both classes (legendre also for '
-            '127/255-bit primes).',
+            '127/255-bit primes). Interleaved passes (first with cold caches, then warm) alternate sqrt/is_sqr of different '
+            'fields back to back (two q = 1 mod 4 extension fields in a row, mixed with q = 3 mod 4, binary and prime fields) under '
+            'a per-call time limit, so class-level state such as the cached Tonelli-Shanks non-residue cannot leak unnoticed.',
     'note': 'Coq model restricted to prime fields. Extension fields (Tonelli-Shanks; q = 1 and 3 mod 4) and binary fields '
             '(Frobenius) are covered by the implementation-level oracle only: is_sqr/sqrt/INV against brute-force squares on all '
             'elements for q <= 4096 and 1500 sampled elements of GF(2^16) (no Coq model of gfpx here). PARTIAL / MISSING: '
@@ -67,10 +69,83 @@ def fpow(x, n, one):
     return r
 
 
+class StepTimeout(Exception):
+    pass
+
+
+class time_limit:
+    """SIGALRM-based guard: a non-terminating sqrt/is_sqr (e.g. Tonelli-Shanks fed a foreign non-residue) raises StepTimeout."""
+    def __init__(self, seconds):
+        self.seconds = seconds
+
+    def _h(self, *a):
+        raise StepTimeout()
+
+    def __enter__(self):
+        import signal
+        self.old = signal.signal(signal.SIGALRM, self._h)
+        signal.setitimer(signal.ITIMER_REAL, self.seconds)
+
+    def __exit__(self, *a):
+        import signal
+        signal.setitimer(signal.ITIMER_REAL, 0)
+        signal.signal(signal.SIGALRM, self.old)
+        return False
+
+
+def interleaved(ctx, finfields, rng, rounds=None):
+    """sqrt / is_sqr of DIFFERENT fields back to back in one sequence (state cached at class level, such as the
+    Tonelli-Shanks non-residue _least_qnr, must not leak between fields): extension fields with q = 1 mod 4
+    alternate with each other and with q = 3 mod 4, binary and prime fields; each step is checked against
+    squares built with the field's own multiplication; every call runs under a time limit."""
+    specs = [(3, 2), (5, 2), (7, 2), (3, 4), (11, 2), (13, 2), (17, 2), (5, 3), (3, 3), (7, 3), (2, 4), (2, 8)]
+    X = []
+    for (pp, dd) in specs:
+        X.append(('GF(%d^%d)' % (pp, dd), finfields.GF(finfields.find_irreducible(pp, dd)), pp ** dd))
+    for p in (13, 17, 19, 101, 2305843009213693921):
+        X.append(('GF(%d)' % p, finfields.GF(p), p))
+    q1 = [x for x in X if x[2] % 4 == 1 and x[0].count('^')]
+    n = 0
+    trace = []
+    rounds = rounds or ctx.n(1500, 15000)
+    for k in range(rounds):
+        if k % 2 == 0:
+            name, F, q = q1[(k // 2) % len(q1)] if (k // 2) % 7 else rng.choice(q1)     # two q = 1 mod 4 extension fields back to back
+        else:
+            name, F, q = rng.choice(q1) if k % 4 == 1 else rng.choice(X)
+        x = F(rng.randrange(1, q))
+        a = x * x if k % 3 else F(rng.randrange(q))
+        trace.append([name, int(a)])
+        del trace[:-6]
+        n += 1
+        try:
+            with time_limit(20):
+                sq = a.is_sqr()
+                euler = (a == F(0)) or q % 2 == 0 or fpow(a, (q - 1) // 2, F(1)) == F(1)
+                if bool(sq) != bool(euler):
+                    ctx.violation('interleaved-is_sqr-wrong ' + name, {'field': name, 'a': int(a), 'got': bool(sq), 'preceding_steps': list(trace)})
+                if euler:
+                    r = a.sqrt()
+                    if type(r) is not F or r * r != a:
+                        ctx.violation('interleaved-sqrt-wrong ' + name, {'field': name, 'a': int(a), 'got': str(r), 'preceding_steps': list(trace)})
+                    if a != F(0):
+                        ri = a.sqrt(INV=True)
+                        if type(ri) is not F or ri * ri * a != F(1) or ri * r not in (F(1), -F(1)):
+                            ctx.violation('interleaved-inv-sqrt-wrong ' + name, {'field': name, 'a': int(a), 'got': str(ri), 'preceding_steps': list(trace)})
+        except StepTimeout:
+            ctx.violation('interleaved-sqrt-timeout ' + name, {'field': name, 'a': int(a), 'limit_s': 20, 'preceding_steps': list(trace)})
+            break
+        except Exception as ex:  # noqa
+            ctx.violation('interleaved-sqrt-raises ' + name, {'field': name, 'a': int(a), 'got': repr(ex), 'preceding_steps': list(trace)})
+        ctx.case({'il': name, 'a': int(a), 'k': k}, nontrivial=True, kind='interleaved sqrt across fields')
+    return n
+
+
 def run(ctx):
     from mpyc import finfields, gmpy
     ok = ctx.build(['MPyC.Sqrt']) and ctx.check_props()
     rng = ctx.rng
+    nil = interleaved(ctx, finfields, rng, rounds=ctx.n(400, 4000))      # first use of every field class: caches cold
     ctx.rule = ('case = (field, element a): sqrt(a), sqrt(a, INV=True), is_sqr(a); all elements for primes <= 257 (both '
                 'classes mod 4, plus 2), for every extension/binary field of order <= 2^16; random squares and non-squares '
                 'for 61/64-bit primes; non-trivial = a nonzero')
@@ -190,17 +265,26 @@ def run(ctx):
             idx = sorted(set([0, 1, 2, pp, q - 1] + [rng.randrange(q) for _ in range(1500)]))
         else:
             idx = range(q)
+        hung = False
         for i in idx:
             a = E[i]
             is_square = i in squares
             g = code(lambda: a.is_sqr())
             if g != int(is_square):
                 bad('is_sqr-wrong ' + name, field=name, a=i, got=g, want=int(is_square))
+            if hung:
+                continue
             if is_square:
                 try:
-                    r = a.sqrt()
+                    with time_limit(20):
+                        r = a.sqrt()
                     if type(r) is not F or int(r * r) != i:
                         bad('sqrt-wrong ' + name, field=name, a=i, got=str(r))
+                except StepTimeout:
+                    bad('sqrt-timeout ' + name, field=name, a=i, limit_s=20)
+                    r = None
+                    hung = True
+                    continue
                 except Exception as ex:  # noqa
                     bad('sqrt-raises ' + name, field=name, a=i, got=repr(ex))
                     r = None
@@ -214,9 +298,13 @@ def run(ctx):
                         bad('inv-sqrt-of-zero-wrong-error ' + name, field=name, got=repr(ex))
                 else:
                     try:
-                        ri = a.sqrt(INV=True)
+                        with time_limit(20):
+                            ri = a.sqrt(INV=True)
                         if type(ri) is not F or (ri * ri * a) != one or (r is not None and (ri * r) not in (one, -one)):
                             bad('inv-sqrt-wrong ' + name, field=name, a=i, got=str(ri))
+                    except StepTimeout:
+                        bad('inv-sqrt-timeout ' + name, field=name, a=i, limit_s=20)
+                        hung = True
                     except Exception as ex:  # noqa
                         bad('inv-sqrt-raises ' + name, field=name, a=i, got=repr(ex))
             else:
@@ -229,6 +317,9 @@ def run(ctx):
         if F._sqrt(zero.value) != zero.value:
             bad('sqrt-zero ' + name, field=name)
     ctx.extra['oracle_cases_extension_binary'] = nor
+    nil += interleaved(ctx, finfields, rng)
+    ctx.extra['interleaved_cross_field_checks'] = nil
+    ctx.log('interleaved cross-field sqrt/is_sqr checks: %d' % nil)
     ctx.notes.append('extension/binary fields: brute-force-squares oracle on the implementation only (no Coq model of gfpx in this check)')
     ctx.log('extension/binary oracle cases: %d' % nor)
     if ctx.broken and not ctx.violations:
